@@ -43,6 +43,23 @@ type Connector struct {
 	// payload goes to router.Consumer(ids...) for a subset of router.PipelineIDs() sorted by their string
 	// form: "all", "one" (the first), "some" (every other one, starting with the first).
 	Route string `json:"route,omitempty"`
+	// Levels: pair ("logs>traces") → the stability level the factory declares for that supported pair
+	// (LevelNames); a pair without entry is declared Stable.  Every defined level means "supported" — only
+	// a pair that is not in Pairs (the factory answers Undefined) is unsupported — so the evaluator never
+	// looks at it.  Connectors of one type share the factory: the generator copies Levels with Pairs.
+	Levels map[string]string `json:"levels,omitempty"`
+}
+
+// LevelNames are the defined stability levels (component.StabilityLevel.String()), everything but
+// Undefined.  "Stable" comes first: it is what every factory declared before levels were generated.
+var LevelNames = []string{"Stable", "Deprecated", "Unmaintained", "Development", "Alpha", "Beta"}
+
+// LevelOf returns the level name declared for the pair (Stable when nothing is said).
+func (c Connector) LevelOf(from, to string) string {
+	if l, ok := c.Levels[from+">"+to]; ok && l != "" {
+		return l
+	}
+	return "Stable"
 }
 
 // RoutePick returns the indexes (into the sorted downstream pipeline ids) a
@@ -117,6 +134,49 @@ type Topology struct {
 	// ExtList is service::extensions; it may mention an id more than once (no
 	// validation rejects that).  Empty: the order of Extensions.
 	ExtList []string `json:"ext_list,omitempty"`
+	// Levels: "<component type>:<signal>" (e.g. "trecv:logs", "tproc:profiles", "texp:metrics") → the
+	// stability level the receiver / processor / exporter factory declares for that signal (LevelNames);
+	// without entry: Stable.  A level is documentation: it never changes what is built or how data flows.
+	Levels map[string]string `json:"levels,omitempty"`
+}
+
+// LevelOf returns the level name the factory of the component type declares for the signal.
+func (t Topology) LevelOf(ty, sig string) string {
+	if l, ok := t.Levels[ty+":"+sig]; ok && l != "" {
+		return l
+	}
+	return "Stable"
+}
+
+// Dedup returns the list without repeated entries (first occurrences, in order).
+func Dedup(xs []string) []string {
+	seen := make(map[string]bool, len(xs))
+	out := make([]string, 0, len(xs))
+	for _, x := range xs {
+		if !seen[x] {
+			seen[x] = true
+			out = append(out, x)
+		}
+	}
+	return out
+}
+
+// HasRepeat tells whether the list names an id more than once.
+func HasRepeat(xs []string) bool { return len(Dedup(xs)) != len(xs) }
+
+// Normalized returns the topology with every pipeline's receivers and exporters lists reduced to the SET
+// of ids they name.  A pipeline "lists" a component or it does not: naming the same receiver, exporter or
+// connector id twice in one list (legal — validation only rejects repeated processors) refers to the same
+// single instance and adds no path.
+func (t Topology) Normalized() Topology {
+	out := t
+	out.Pipelines = make([]Pipeline, len(t.Pipelines))
+	for i, pl := range t.Pipelines {
+		pl.Receivers = Dedup(pl.Receivers)
+		pl.Exporters = Dedup(pl.Exporters)
+		out.Pipelines[i] = pl
+	}
+	return out
 }
 
 // ServiceExtensions returns the service::extensions list.
@@ -203,6 +263,8 @@ type use struct {
 // (README of service/connector, the property statement) and shares no code
 // with the collector's graph package.
 func Evaluate(t Topology) *Plan {
+	// which components a pipeline lists is a set: a repeated id is the same instance, on the same path
+	t = t.Normalized()
 	p := &Plan{Deliveries: map[string][]Delivery{}}
 	conn := map[string]Connector{}
 	for _, c := range t.Connectors {
@@ -499,7 +561,13 @@ func (t Topology) Canon() string {
 	for _, c := range t.Connectors {
 		ps := append([]string(nil), c.Pairs...)
 		sort.Strings(ps)
-		fmt.Fprintf(&b, "C %s %v %v %q\n", c.ID, ps, c.Forward, c.Route)
+		fmt.Fprintf(&b, "C %s %v %v %q", c.ID, ps, c.Forward, c.Route)
+		if len(c.Levels) > 0 {
+			for _, p := range ps {
+				fmt.Fprintf(&b, " %s", c.LevelOf(strings.SplitN(p, ">", 2)[0], strings.SplitN(p, ">", 2)[1]))
+			}
+		}
+		b.WriteString("\n")
 	}
 	pls := make([]string, 0, len(t.Pipelines))
 	for _, p := range t.Pipelines {
@@ -518,6 +586,9 @@ func (t Topology) Canon() string {
 	}
 	if len(t.ExtList) > 0 {
 		fmt.Fprintf(&b, "\nXL %v", t.ExtList)
+	}
+	if len(t.Levels) > 0 {
+		fmt.Fprintf(&b, "\nL %v", t.Levels) // fmt prints maps in key order
 	}
 	return b.String()
 }
